@@ -526,6 +526,8 @@ def _ufunc(ufunc, method, inputs, out, kw):
         return red(inputs[0], axis=axis, keepdims=keepdims)
     if method != '__call__':
         raise EngineGap('ufunc method %s.%s' % (ufunc.__name__, method))
+    if ufunc is np.matmul and not kw and not out:
+        return _matmul(*inputs)          # (a generalised ufunc since NumPy 1.16: `a @ b` arrives here)
     ent = UFUNCS.get(ufunc)
     if ent is None:
         raise EngineGap('ufunc %s is not modelled' % ufunc.__name__)
